@@ -1045,7 +1045,11 @@ func (c *Conn) handleBdat(arg string) {
 	c.lineLimitReader.setLimit(0)
 
 	chunk := io.LimitReader(c.text.R, int64(size))
-	_, err = io.Copy(c.bdatPipe, chunk)
+	n, err := io.Copy(c.bdatPipe, chunk)
+	if err == nil && n != int64(size) {
+		// The connection went away in the middle of the chunk.
+		err = io.ErrUnexpectedEOF
+	}
 	if err != nil {
 		// Backend might return an error early using CloseWithError without consuming
 		// the whole chunk.
